@@ -265,3 +265,11 @@ pub fn render_finalize(response: &response::FinalizeBlock) -> String {
     out.push_str(&format!("consensus_param_updates={:?}\n", response.consensus_param_updates));
     out
 }
+
+/// `App::end_block` cannot credit the fee pot when the recipient's balance plus the pot exceeds
+/// `u128::MAX`; the block then fails on every node alike. Only reachable in a generated world that
+/// holds more than `u128::MAX` of one asset in total, which no listed property speaks about
+/// (DESIGN.md, section 5, observations): drivers that do not model balances end the history there.
+pub fn is_fee_recipient_overflow(error: &str) -> bool {
+    error.contains("failed to increase fee recipient balance") && error.contains("overflow")
+}
